@@ -224,6 +224,11 @@ def gen_scalar(rng, isint, iscomplex):
     if isint:
         return rng.choice([2, 3, -2, 5])
     if iscomplex and rng.random() < 0.5:
+        if rng.random() < 0.3:
+            # non-real scalars of modulus EXACTLY one (seed z01): 1/a is
+            # conj(a) there, not a -- shortcuts keyed on abs(a) == 1
+            return rng.choice([[0.0, 1.0], [0.0, -1.0], [0.6, 0.8],
+                               [-0.8, 0.6], [0.6, -0.8], [-0.28, 0.96]])
         if rng.random() < 0.25:        # purely imaginary
             return [0.0, round(rng.uniform(-2, 2), 3) or 1.0]
         return [round(rng.uniform(-2, 2), 3), round(rng.uniform(-2, 2), 3)]
